@@ -86,6 +86,19 @@ class Prop(PropBase):
             yield {"op": "n", "N": n}
         sm = [s for s in SM() if s < (1 << 62)]
         pick = rng.sample(sm, 700) if quick else sm
+        if quick:
+            # always: the neighbours of every pure prime power and of 2^a*{3,5,7,9,15,21,35} (where float log/pow slips live)
+            always = set()
+            for base in (2, 3, 5, 7):
+                v = base
+                while v < (1 << 62):
+                    always.add(v)
+                    if base == 2:
+                        for m in (3, 5, 7, 9, 15, 21, 35):
+                            if v * m < (1 << 62):
+                                always.add(v * m)
+                    v *= base
+            pick = sorted(set(pick) | always)
         for s in pick:
             for n in (s - 1, s, s + 1):
                 if n >= hi:
